@@ -337,5 +337,41 @@ pub fn run(args: &Args) -> Report {
             rep.sample(format!("{} || {}", case.a2ml.replace('\n', " "), insts[0].join(" ")));
         }
     }
+    // definitions around the nesting limit of the A2ML parser (100 levels; structs, chains of named types, array
+    // dimensions, ( )*, tagged members): accepted or rejected as the Lean A2ML model says, and IF_DATA content that a
+    // definition of the deepest accepted shape describes is still interpreted
+    for depth in [1usize, 3, 30, 48, 49, 50, 51, 96, 97, 98, 99, 100, 101, 102, 150] {
+        for kind in ["nest-a2ml", "chain-a2ml", "dims-a2ml", "seq-a2ml", "tagged-a2ml"] {
+            let doc = crate::c03::nest_text(kind, depth);
+            let Some(a) = doc.find("/begin A2ML ").map(|p| p + 12) else { continue };
+            let Some(b) = doc.find(" /end A2ML") else { continue };
+            let def = doc[a..b].to_string();
+            rep.case(&def, true);
+            rep.bump("nesting-definition");
+            match catch(|| a2lfile::verif_hooks::a2ml_dump(&def)) {
+                Err(p) => rep.fail("panic", format!("{} -", hex(def.as_bytes())), format!("A2ML parser panicked: {p}")),
+                Ok(Err(_)) => {
+                    rep.bump("nesting-definition:rejected");
+                    rep.tie(format!("aml {}", hex(def.as_bytes())), "err".to_string());
+                }
+                Ok(Ok(dump)) => {
+                    rep.bump("nesting-definition:accepted");
+                    rep.tie(format!("aml {}", hex(def.as_bytes())), format!("ok {dump}"));
+                    // the reference: whatever is accepted is a definition that the content `5` / `T 5` conforms to
+                    if matches!(kind, "nest-a2ml" | "chain-a2ml" | "dims-a2ml") {
+                        match catch(|| a2lfile::load_from_string(&doc, None, true)) {
+                            Ok(Ok((f, _))) => {
+                                if !all_ifdata(&f).iter().all(|v| *v) {
+                                    rep.fail("valid-flag", format!("{} -", hex(doc.as_bytes())), format!("content 5 is not interpreted with an accepted definition of depth {depth} ({kind})"));
+                                }
+                            }
+                            Ok(Err(e)) => rep.fail("load", format!("{} -", hex(doc.as_bytes())), format!("{e}")),
+                            Err(p) => rep.fail("panic", format!("{} -", hex(doc.as_bytes())), p),
+                        }
+                    }
+                }
+            }
+        }
+    }
     rep
 }
